@@ -57,6 +57,50 @@ def gen(rng, tier):
         v = ('e', 's', 'u', [(('s', b"b"), ('u', 1)), (('s', b"a"), ('u', 2)), (('s', b"b"), ('u', 3))])
         b, _ = G.marshal(('r', [v]), big, 0)
         yield G.case_de_s("--", big, 0, 0, "a{su}", b)
+    if LENIENT_SIG_CASES:
+        for c in lenient_sig_cases(rng):
+            yield c
+
+
+# ---- known finding sig_grammar_lenient (Coq: C03_sigs_refuted, class predicate DBus.DeSoundDefs.sig_lenient) ----
+# zvariant's signature parser accepts signatures outside the D-Bus grammar (non-basic dict keys, more than 32
+# nested arrays / structs), so the decoder accepts containers of such types.  The cases below stay OFF until the
+# third output column of DBus/Run.v names the class (`de_class`, see docs/C03.md): without it they print VIOLATION.
+LENIENT_SIG_CASES = False
+
+
+def _pad(buf, pos, al):
+    while (pos + len(buf)) % al:
+        buf += b"\0"
+    return buf
+
+
+def _empty_container_variant(sig, elem_align, pos):
+    """variant header for `sig` (an array or dict type) followed by the empty container"""
+    b = bytes([len(sig)]) + sig.encode() + b"\0"
+    b = _pad(b, pos, 4) + b"\0\0\0\0"
+    return _pad(b, pos, elem_align)
+
+
+def lenient_sig_cases(rng):
+    keys = ["v", "ay", "(i)", "a{ss}", "as", "(sv)", "aay", "av"]
+    vals = ["s", "v", "u", "ay", "(ii)"]
+    for k in keys:                                     # non-basic dict keys, inside a variant
+        for big in (False, True):
+            pos = rng.randint(0, 9)
+            yield G.case_de_v("--", big, pos, 0, _empty_container_variant("a{%s%s}" % (k, rng.choice(vals)), 8, pos))
+    for k in keys[:4]:                                 # ... and as the caller's body signature
+        sig = "a{%ss}" % k
+        b = _pad(b"\0\0\0\0", 0, 8)
+        yield G.case_de_s("--", rng.random() < 0.5, 0, 0, sig, b)
+    for n in range(33, 41):                            # 33..40 nested arrays / structs in a variant's signature
+        for big in (False, True):
+            pos = rng.randint(0, 9)
+            yield G.case_de_v("--", big, pos, 0, _empty_container_variant("a" * n + "y", 4, pos))
+            yield G.case_de_v("--", big, pos, 0, _empty_container_variant("a" + "(" * n + "y" + ")" * n, 8, pos))
+    for n in (32,):                                    # the limit itself is fine (not in the class)
+        yield G.case_de_v("--", False, 0, 0, _empty_container_variant("a" * n + "y", 4, 0))
+        yield G.case_de_v("--", False, 0, 0, _empty_container_variant("a" + "(" * n + "y" + ")" * n, 8, 0))
 
 
 def nontrivial(case, impl_out):
